@@ -583,10 +583,31 @@ impl Lock {
 
     /// Full compare of all five regions; on mismatch locate the culprit among the cases executed
     /// since the previous full compare by re-executing them.
+    /// Let peripheral time pass on the real machine while the timer is stopped by its own register
+    /// (clock select 0 in the mirror's TCR0): nothing may move. An instruction that secretly
+    /// configured a peripheral (partial address decoding, a write decoded twice) shows here, as a
+    /// change of the timer registers at the next compare or as an interrupt request.
+    fn let_time_pass(&mut self) -> bool {
+        if self.mem.peek(0xffff80).unwrap_or(0) & 7 != 0 {
+            return false;
+        }
+        for _ in 0..40 {
+            let _ = catch_unwind(AssertUnwindSafe(|| self.cpu.verif_update_modules(255)));
+        }
+        let raised = !self.cpu.verif_pending().is_empty();
+        self.cpu.verif_clear_pending();
+        raised
+    }
+
     pub fn full_check(&mut self) {
         self.full_compares += 1;
         self.since_full = 0;
+        let raised = self.let_time_pass();
         let mut bad: Vec<(u32, u8, u8)> = vec![];
+        if raised {
+            // reported at the timer's status register
+            bad.push((0xffff82, real_peek(&self.cpu, 0xffff82).unwrap_or(0) | 0x01, self.mem.peek(0xffff82).unwrap_or(0)));
+        }
         for ri in 0..5 {
             let real = real_region(&self.cpu, ri);
             let model = &self.mem.r[ri];
@@ -605,7 +626,8 @@ impl Lock {
         if bad.is_empty() {
             return;
         }
-        // repair
+        // repair (the timer through its own register first, so that its private state stops too)
+        let _ = self.cpu.bus.write(0xffff80, 0);
         for ri in 0..5 {
             let src = self.mem.r[ri].clone();
             let dst = real_region_mut(&mut self.cpu, ri);
@@ -613,19 +635,28 @@ impl Lock {
             dst[..m].copy_from_slice(&src[..m]);
         }
         // locate: re-run each case, look only at the bad addresses
+        let timer_involved = bad.iter().any(|(a, _, _)| (0xffff80..=0xffff9f).contains(a));
         let mut located = vec![false; bad.len()];
         for (c, action) in &ring {
             let obs = self.run_inner(c, *action);
+            let raised = if timer_involved { self.let_time_pass() } else { false };
             let judged = matches!((&obs.step.outcome, &obs.real), (Outcome::Ok(_), RealOutcome::Ok(_)));
             for (k, (a, r, m)) in bad.iter().enumerate() {
                 if located[k] {
                     continue;
                 }
-                if real_peek(&self.cpu, *a) != self.mem.peek(*a) {
+                if real_peek(&self.cpu, *a) != self.mem.peek(*a) || (raised && *a == 0xffff82) {
                     located[k] = true;
                     self.strays.push((Some(c.clone()), *a, *r, *m, judged));
                     let mv = self.mem.peek(*a).unwrap_or(0);
                     real_poke(&mut self.cpu, *a, mv);
+                    if timer_involved {
+                        let _ = self.cpu.bus.write(0xffff80, 0);
+                        for t in 0xffff80u32..=0xffff9f {
+                            let mv = self.mem.peek(t).unwrap_or(0);
+                            real_poke(&mut self.cpu, t, mv);
+                        }
+                    }
                 }
             }
         }
